@@ -171,6 +171,8 @@ class IntegerGroup:
         h = bytes_to_number(processed_seed) % self.p
         element = _Element(self, pow(h, r, self.p))
         assert self._is_member(element)
+        # h**r can be 1 (the identity), whose discrete log everybody knows
+        assert element._e != 1
         return element
 
     def _is_member(self, e):
